@@ -312,7 +312,7 @@ func runC08(c *ev.Ctx) {
 				return "", ""
 			},
 			Key: func(w W) string { return w.Key() }, MaxDepth: ph.len,
-			Describe: func(w W) string { return "original | clone = " + w.Describe() }, Touch: func(w W) { w.Touch() }}
+			Describe: func(w W) string { return "original | clone = " + w.Describe() }}
 		// initial clone check (content / Equals) on every start state
 		for i, mk := range inits {
 			if i%16 == 0 && c.Expired() {
